@@ -766,6 +766,19 @@ def replay(v, work):
         with contextlib.redirect_stdout(io.StringIO()):
             po_roundtrip(c["klass"], c["lo"], c["hi"], rows, c["rows_as"], opener, work)
         return
+    if c["call"] == "po.save" and c.get("object"):
+        from praatio.data_classes.data_point import PointObject1D, PointObject2D
+
+        o = c["object"]
+        pts = [tuple(p) for p in o["points"]]
+        klass = PointObject1D if o["class"] == "PointProcess" else PointObject2D
+        with contextlib.redirect_stdout(io.StringIO()):
+            try:
+                obj = klass(pts, o["class"], o["min"], o["max"])
+                obj.save(os.path.join(str(work), "replay_po.txt"))
+            except Exception:
+                pass
+        return
     with contextlib.redirect_stdout(io.StringIO()):
         if c["call"] in ("kg.open", "kg.reopen") and (c.get("file") or c.get("file_zb64")):
             import base64
